@@ -5,7 +5,9 @@ exact rational constants, and the evaluation of the generated expressions at a r
 op "build":  {"subst": [...], "rxns": [{"reac": [[k,n],…], "prod": …, "inact_reac": …, "inact_prod": …,
                                         "param": {"kind": "raw|ma|named|key|sym", "k": rat?, "uk": str?}}, …],
               "builder": "get" | "create", "include_params": bool, "subs": [[key, rat], …], "cstr": bool,
-              "param_exprs": [[key, rat], …], "py_nums": bool, "point": [[symbol, rat], …] | null}
+              "param_exprs": [[key, rat], …], "py_nums": bool,
+              "active": [[key, pexpr], …]?, "consts": [[key, rat], …]?   (get;  pexpr = {"c": rat} | {"s": key} | {"add": [a, b]} | {"mul": [a, b]}),
+              "subst_symbols": [key, …] | null?, "param_symbols": {"ordered": bool, "keys": [key, …]} | null?   (create), "point": [[symbol, rat], …] | null}
 answer: the exception class, or one JSON object
    {"names", "param_names", "param_keys", "unique": [[key, null | "n/d"]], "exprs": [poly], "rates": [poly], "f": ["n/d"] | null,
     "r": ["n/d"] | null}
@@ -32,6 +34,20 @@ def asRxn' (v : Json) : Except String Rxn := do
   let ip ← asDict "inact_prod" asNat (← field v "inact_prod")
   let p ← asParam (← field v "param")
   pure { reac := reac, prod := prod, inactReac := ir, inactProd := ip, param := p }
+
+partial def asPExpr (v : Json) : Except String PExpr :=
+  match v.getObjVal? "c", v.getObjVal? "s", v.getObjVal? "add", v.getObjVal? "mul" with
+  | .ok c, _, _, _ => do pure (.const (← asRat c))
+  | _, .ok (.str k), _, _ => pure (.sym k)
+  | _, _, .ok (.arr #[a, b]), _ => do pure (.add (← asPExpr a) (← asPExpr b))
+  | _, _, _, .ok (.arr #[a, b]) => do pure (.mul (← asPExpr a) (← asPExpr b))
+  | _, _, _, _ => .error "!bad-arg:pexpr"
+
+/-- absent field = empty dict -/
+def optDict {β : Type} (j : Json) (k : String) (val : Json → Except String β) : Except String (List (String × β)) :=
+  match optField j k with
+  | none => pure []
+  | some v => asDict k val v
 
 def jStrs (l : List String) : Json := Json.arr (l.map Json.str).toArray
 def jRat (q : Rat) : Json := Json.str (showRat q)
@@ -68,8 +84,10 @@ def hStep : Handler := fun op j =>
         | some v => do pure (some (← asDict "point" asRat v))
       match builder with
       | "get" => do
-          let cfg : Cfg := { includeParams := (← getBool j "include_params"), subs := (← asDict "subs" asRat (← field j "subs")), cstr := cstr, pyNums := pyNums }
-          match buildRhs cfg sys with
+          let cfg : GCfg := { includeParams := (← getBool j "include_params"), subs := (← asDict "subs" asRat (← field j "subs")),
+                              active := (← optDict j "active" asPExpr), consts := (← optDict j "consts" asRat), cstr := cstr, pyNums := pyNums }
+          if !(nodupKeys ((subsForMembership cfg))) then .error "!bad-arg:subs/active:duplicate-key"
+          match buildRhsG cfg sys with
           | .error e => pure (showErrC e)
           | .ok o =>
             pure (Json.mkObj [("names", jStrs o.names), ("param_names", jStrs o.paramNames), ("param_keys", jStrs o.paramKeys),
@@ -78,7 +96,13 @@ def hStep : Handler := fun op j =>
               ("f", evalAt point o.exprs), ("r", evalAt point o.rateExprs)]).compress
       | "create" => do
           let cfg : Cfg' := { cstr := cstr, paramExprs := (← asDict "param_exprs" asRat (← field j "param_exprs")), pyNums := pyNums }
-          match buildRhs' cfg sys with
+          let substKeys ← match optField j "subst_symbols" with
+            | none => pure none
+            | some v => do pure (some (← (← asArr v).mapM asStr))
+          let paramKeys ← match optField j "param_symbols" with
+            | none => pure none
+            | some v => do pure (some ((← getBool v "ordered"), (← getStrList v "keys")))
+          match buildRhs'U { cfg := cfg, substKeys := substKeys, paramKeys := paramKeys } sys with
           | .error e => pure (showErrC e)
           | .ok o =>
             pure (Json.mkObj [("names", jStrs o.names), ("param_names", jStrs o.paramNames),
